@@ -145,6 +145,11 @@ class Ref:
       finally:
         self.override = saved
         self.cache = cache_saved
+      # an ordered/limited member of the component is ordered/limited in every generation
+      for q in scc:
+        if q in self.order_specs:
+          keys, limit = self.order_specs[q]
+          new[q] = V.order_limit_rel(new[q], [(new[q].col(c), d) for c, d in keys], limit, self.assumptions)
       rels = new
       self.iter_cache[(tuple(scc), it + 1)] = rels
     self.iter_cache[key] = rels
@@ -527,6 +532,13 @@ class Ref:
   def solve_atom(self, p, sols, bound):
     if p.pred in self.macros:
       return self.solve(self.expand_macro(p), sols, bound)
+    if p.pred == 'nil':
+      # the built-in empty predicate (any arity)
+      nb = set(bound)
+      for a in list(p.args) + [v for _, v in p.nargs]:
+        if isinstance(a, Var):
+          nb.add(a.name)
+      return [], frozenset(nb)
     rel = self.relation(p.pred)
     pairs = []
     for i, a in enumerate(p.args):
